@@ -269,6 +269,13 @@ def judge_fn(c, e, rng=None):
     return []
 
 
+_ITEMS = []
+
+
+def _work_idx(i):
+    return _work(_ITEMS[i])
+
+
 def _work(item):
     kind, case = item
     if kind == "state":
@@ -430,8 +437,15 @@ def fn_cases(ctx, vals, label, fam="all"):
 
 def judge_all(items, report, skip, count):
     """items: list of ("state"|"fn", case).  Shared by run() and selftest()."""
-    # ~0.25 ms per case: forking only pays for the big thorough-tier sets
-    results = pmap(_work, items, chunk=2000) if len(items) > 60000 else [_work(x) for x in items]
+    # ~0.25 ms per case: forking only pays for the big thorough-tier sets; the forked workers read the
+    # cases from inherited memory (only indices and verdicts cross the pipe)
+    global _ITEMS
+    if len(items) > 60000:
+        _ITEMS = items
+        results = pmap(_work_idx, range(len(items)), chunk=5000)
+        _ITEMS = []
+    else:
+        results = [_work(x) for x in items]
     for (kind, case), res in zip(items, results):
         if kind == "state":
             key = ("state", case["init"], [s["asgs"] for s in case["sets"]], case["last"])
@@ -493,7 +507,7 @@ def run(ctx):
     else:
         runs = [("StdPaths", 2, 2, False, "design+states: 2 assignments/call, nesting 2"),
                 ("StdPaths", 1, 4, False, "design+states: 1 assignment/call, nesting 4"),
-                (SMALL_PATHS, 2, 2, True, "design+states: mapping values, 2 assignments/call, nesting 2"),
+                (TINY_PATHS, 2, 2, True, "design+states: mapping values, 2 assignments/call, nesting 2"),
                 (TINY_PATHS, 2, 3, False, "design+states: 2 assignments/call, nesting 3")]
         cap = 250000
     # code -> spec recording first (pure Python, seeded), then all TLC runs side by side
